@@ -59,7 +59,7 @@ def Reader.addBytesT {σ} (parse : Bytes → PR σ) (r : Reader σ) (data : Byte
     if buf.length < readerHdrLen then ({ r with buffer := buf }, .none, "short")
     else
       let needed := neededOf buf
-      if (buf.getD 0 0).toNat ≠ readerHandshake then ({ r with buffer := buf }, .none, "not-handshake")
+      if (buf.getD 0 0).toNat ≠ readerHandshake then ({ r with buffer := [] }, .none, "not-handshake")
       else if buf.length < needed then ({ r with buffer := buf }, .none, "incomplete")
       else if needed > readerMaxNeeded then ({}, .errTooLarge, "too-large")
       else
